@@ -209,6 +209,78 @@ Proof.
   rewrite E in E'. inversion E'; subst i'. rewrite Ho in Ho'. inversion Ho'. reflexivity.
 Qed.
 
+(* ---------------------------------------------------------------- Interest: the signed portion determines what was signed *)
+Lemma enc_elems_inj es : forall es', Forall elem_wf es -> Forall elem_wf es' -> enc_elems es = enc_elems es' -> es = es'.
+Proof.
+  induction es as [|e es IH]; intros [|e' es'] Hw Hw' H.
+  - reflexivity.
+  - exfalso. rewrite enc_elems_cons in H. apply (f_equal (@length N)) in H. rewrite app_length in H. pose proof (enc_elem_ge2 e'). simpl in H. lia.
+  - exfalso. rewrite enc_elems_cons in H. apply (f_equal (@length N)) in H. rewrite app_length in H. pose proof (enc_elem_ge2 e). simpl in H. lia.
+  - inversion Hw as [|? ? [Ht Hl] Hw1]; inversion Hw' as [|? ? [Ht' Hl'] Hw1']; subst.
+    rewrite !enc_elems_cons in H. unfold enc_elem in H. rewrite <- !app_assoc in H.
+    assert (H1 := f_equal tl_dec H). rewrite !tl_dec_enc in H1 by assumption. inversion H1 as [[Hf Hr]].
+    assert (H2 := f_equal tl_dec Hr). rewrite !tl_dec_enc in H2 by (unfold two64; lia). inversion H2 as [[Hlen Hr2]].
+    assert (Hlen' : length (snd e) = length (snd e')) by lia.
+    assert (Hv : snd e = snd e').
+    { apply (f_equal (firstn (length (snd e)))) in Hr2. rewrite firstn_app_le, firstn_all in Hr2 by lia.
+      rewrite Hlen', firstn_app_le, firstn_all in Hr2 by lia. exact Hr2. }
+    assert (Hrest : enc_elems es = enc_elems es').
+    { rewrite Hv in Hr2. apply app_inv_head in Hr2. exact Hr2. }
+    f_equal; [destruct e, e'; cbn [fst snd] in *; congruence|apply IH; assumption].
+Qed.
+
+Definition comp_elem (c : comp) : elem := (ctyp c, cval c).
+Lemma name_inner_elems n : name_inner n = enc_elems (map comp_elem n).
+Proof. unfold name_inner, enc_elems. rewrite map_map. reflexivity. Qed.
+Lemma comp_elem_inj a b : map comp_elem a = map comp_elem b -> a = b.
+Proof.
+  revert b; induction a as [|x a IH]; intros [|y b] H; try discriminate; [reflexivity|].
+  inversion H. f_equal; [destruct x, y; cbn in *; congruence|apply IH; assumption].
+Qed.
+Lemma name_elems_wf n : name_ok n -> Forall elem_wf (map comp_elem n).
+Proof. intros H. induction H as [|c n [H1 H2] _ IH]; constructor; [split; assumption|exact IH]. Qed.
+
+(* C12: the bytes covered by an Interest signature — the name's components without the digest, then the
+   ApplicationParameters element, then the SignatureInfo element — are an injective function of (name, parameters,
+   SignatureInfo): two Interests whose signed portions coincide carry the same signed fields. *)
+Theorem int_signed_portion_inj pre c si pre' c' si' :
+  name_ok pre -> name_ok pre' -> opt_si_wf si -> opt_si_wf si' ->
+  (blen (name_inner pre) + blen (enc_elems (int_tail_elems (Some c) si None)) + 100 < big) ->
+  name_inner pre ++ enc_elems (int_tail_elems (Some c) si None) = name_inner pre' ++ enc_elems (int_tail_elems (Some c') si' None) ->
+  (pre, c, si) = (pre', c', si').
+Proof.
+  intros Hn Hn' Hs Hs' Hsz Heq.
+  rewrite !name_inner_elems, <- !enc_elems_app in Heq.
+  assert (Hlen : length (enc_elems (map comp_elem pre' ++ int_tail_elems (Some c') si' None)) =
+                 (length (name_inner pre) + length (enc_elems (int_tail_elems (Some c) si None)))%nat).
+  { rewrite <- Heq, enc_elems_app, app_length, <- name_inner_elems. reflexivity. }
+  assert (Hw : Forall elem_wf (map comp_elem pre ++ int_tail_elems (Some c) si None)).
+  { apply elems_wf.
+    - apply Forall_app; split; [eapply Forall_impl; [|apply (name_elems_wf pre Hn)]; intros e [H _]; exact H|].
+      unfold int_tail_elems. repeat (apply Forall_app; split); try (apply oel_types; unfold two64; lia).
+    - rewrite enc_elems_app, app_length, <- name_inner_elems. unfold blen in Hsz. lia. }
+  assert (Hw' : Forall elem_wf (map comp_elem pre' ++ int_tail_elems (Some c') si' None)).
+  { apply elems_wf.
+    - apply Forall_app; split; [eapply Forall_impl; [|apply (name_elems_wf pre' Hn')]; intros e [H _]; exact H|].
+      unfold int_tail_elems. repeat (apply Forall_app; split); try (apply oel_types; unfold two64; lia).
+    - rewrite Hlen. unfold blen in Hsz. lia. }
+  pose proof (enc_elems_inj _ _ Hw Hw' Heq) as Hl. clear Heq Hw Hw' Hlen.
+  unfold int_tail_elems in Hl. cbn [oel app] in Hl. rewrite !app_nil_r in Hl.
+  (* read the element lists from the end *)
+  assert (T2 : forall (l : list elem) a b, l ++ [a; b] = (l ++ [a]) ++ [b]) by (intros; rewrite <- app_assoc; reflexivity).
+  destruct si as [s|], si' as [s'|]; cbn [option_map oel app] in Hl.
+  - rewrite !T2 in Hl. apply app_inj_tail in Hl as [Hl He]. apply app_inj_tail in Hl as [Hl Hc].
+    assert (Hse : si_enc s = si_enc s') by (apply (f_equal snd) in He; exact He). clear He.
+    assert (Hcc : c = c') by (apply (f_equal snd) in Hc; exact Hc). clear Hc. apply comp_elem_inj in Hl. subst. f_equal. f_equal.
+    assert (Hq : (c', Some s, @None bytes) = (c', Some s', None)); [|inversion Hq; reflexivity].
+    apply int_tail_inj; try assumption.
+    + unfold blen in *. lia.
+    + unfold int_tail_elems. cbn [oel option_map]. rewrite Hse. reflexivity.
+  - exfalso. rewrite T2 in Hl. apply app_inj_tail in Hl as [_ He]. discriminate.
+  - exfalso. rewrite T2 in Hl. apply app_inj_tail in Hl as [_ He]. discriminate.
+  - apply app_inj_tail in Hl as [Hl Hc]. inversion Hc. apply comp_elem_inj in Hl. subst. reflexivity.
+Qed.
+
 (* ---------------------------------------------------------------- covered bytes agree *)
 Lemma sig_covered_agree_data_thm sign nm cfg content sg si est e :
   data_siginfo sg = Ok (si, est) -> name_ok nm -> meta_wf (meta_of cfg) -> signer_ok sg -> data_fits nm cfg content si est ->
